@@ -32,6 +32,8 @@ CORPUS = [
 def corruption_class(kind, label):
     if kind in ("truncate", "random", "wellformed"):
         return kind
+    if kind == "replace-pair":
+        return "two-header-words"
     f = label.split(".")[-1]
     if f in ("total", "hsize", "size"):
         return "size-word"
@@ -79,6 +81,9 @@ def gen_cases(ck):
         for mask in masks:
             for kind, label, w in G.adversarial(rng, o):
                 cases.append({"mask": mask, "w": w, "kind": kind, "label": label})
+        if nbase <= (6 if quick else 40):
+            for kind, label, w in G.adversarial_pairs(rng, o):
+                cases.append({"mask": 63, "w": w, "kind": kind, "label": label})
     for kind, label, w in G.random_buffers(rng, 400 if quick else 5000):
         cases.append({"mask": rng.choice([63, 63, 0, rng.randrange(64)]), "w": w, "kind": kind, "label": label})
     return cases
